@@ -263,6 +263,7 @@ func vpH_c05_obs() {
 	a := vpMkMap(n)
 	la := vpAbs(a)
 	snap := vpSnap(a)
+	whole := vpSnapshot(a)
 	vpCheckObservers(a, la, vpInt(0, n+1))
 	// Range stops at the first error and returns it
 	stopAt := vpInt(0, n)
@@ -281,6 +282,7 @@ func vpH_c05_obs() {
 		vpAssert(err == nil && calls == len(la), "Range visits every live entry once")
 	}
 	vpAssert(vpSameRep(a, snap), "observers do not modify the map")
+	vpAssert(vpUnchanged(a, whole), "observers write nothing at all into the map (no cached or lazily built state)")
 }
 
 func vpH_c05_equal() {
@@ -288,11 +290,13 @@ func vpH_c05_equal() {
 	a := vpMkMap(n)
 	b := vpMkMap(n)
 	sa, sb := vpSnap(a), vpSnap(b)
+	wa, wb := vpSnapshot(a), vpSnapshot(b)
 	want := vpEqPairs(vpAbs(a), vpAbs(b))
 	vpAssert(Equal(a, b) == want, "Equal(a,b) iff keys, values and order all match")
 	vpAssert(Equal(b, a) == want, "Equal is symmetric")
 	vpAssert(Equal(a, a), "Equal is reflexive")
 	vpAssert(vpSameRep(a, sa) && vpSameRep(b, sb), "Equal does not modify its arguments")
+	vpAssert(vpUnchanged(a, wa) && vpUnchanged(b, wb), "Equal writes nothing at all into its arguments")
 }
 
 // Renames from inside a Range callback (the interpolateOrderedMap pattern).
